@@ -74,7 +74,11 @@ var ipAddrs = map[string][]string{
 	"loop4": {"/ip4/127.0.0.1"}, "loop6": {"/ip6/::1"}, "unspec4": {"/ip4/0.0.0.0"}, "unspec6": {"/ip6/::"},
 	"linklocal": {"/ip4/169.254.1.1", "/ip6/fe80::1"}, "dns": {"/dns4/example.com", "/dns/ipni.example.org", "/dns6/example.net"}, "localhost": {"/dns/localhost", "/dns4/localhost"},
 }
-var sfx = map[string]string{"none": "/tcp/3003", "bare80": "/tcp/80", "http": "/tcp/80/http", "https": "/tcp/443/https", "tls-http": "/tcp/443/tls/http"}
+const encapsulated = "/p2p/12D3KooWQSMKybsYFnNyCGzFUJPgXLPxbGmuZp5xDrhEYyGkWfQ6"
+
+var sfx = map[string]string{"none": "/tcp/3003", "bare80": "/tcp/80", "http": "/tcp/80/http", "https": "/tcp/443/https", "tls-http": "/tcp/443/tls/http",
+	"p2p": "/tcp/3003" + encapsulated, "http-p2p": "/tcp/80/http" + encapsulated, "https-path": "/tcp/443/https/http-path/ipni%2Fv1",
+	"https-path-p2p": "/tcp/443/https/http-path/ipni%2Fv1" + encapsulated}
 
 func mk(a addr, variant int) multiaddr.Multiaddr {
 	if a.IP == "nil" {
@@ -227,7 +231,7 @@ func Run(args []string) *rep.Report {
 			var wHTTP, wPub, wClean []string
 			for i, a := range tc.L {
 				s := strs([]multiaddr.Multiaddr{mk(a, idx+i)})[0]
-				if a.IP != "nil" && a.Sfx != "none" && a.Sfx != "bare80" {
+				if a.IP != "nil" && a.Sfx != "none" && a.Sfx != "bare80" && a.Sfx != "p2p" {
 					wHTTP = append(wHTTP, s)
 				}
 				if a.IP == "nil" || a.IP == "pub4" || a.IP == "pub6" || a.IP == "dns" {
